@@ -280,6 +280,17 @@ func checkMetrics(gm retriever.GraphMetrics, m metricsModel) error {
 
 // ---- files -------------------------------------------------------------------------------------
 
+// The ids in a fragment are labels that tie relationship records to node records; DAWGS writes them through
+// graph.ID.String, the signed reading of the 64-bit value. Both readings of the same 64 bits are the same id.
+func canonID(text string) string {
+	if v, err := strconv.ParseInt(text, 10, 64); err == nil {
+		return strconv.FormatUint(uint64(v), 10)
+	}
+	return text
+}
+
+func sameID(text string, id uint64) bool { return canonID(text) == strconv.FormatUint(id, 10) }
+
 func decompress(codec string, raw []byte) ([]byte, error) {
 	switch codec {
 	case "none":
@@ -435,7 +446,7 @@ func checkFiles(c Case, dir string, man retriever.Manifest, src []fakedb.GraphSn
 				return fmt.Errorf("graph %q node record %d: %w", ge.Name, i, err)
 			}
 			want := snap.Nodes[i]
-			if fn.ID != strconv.FormatUint(want.ID, 10) {
+			if !sameID(fn.ID, want.ID) {
 				return fmt.Errorf("graph %q node record %d has id %q, source node #%d (by id) is %d", ge.Name, i, fn.ID, i, want.ID)
 			}
 			if !reflect.DeepEqual(sortedCopy(fn.Kinds), sortedCopy(want.Kinds)) {
@@ -451,7 +462,7 @@ func checkFiles(c Case, dir string, man retriever.Manifest, src []fakedb.GraphSn
 				return fmt.Errorf("graph %q edge record %d: %w", ge.Name, i, err)
 			}
 			want := snap.Edges[i]
-			if fe.StartID != strconv.FormatUint(want.Start, 10) || fe.EndID != strconv.FormatUint(want.End, 10) || fe.Kind != want.Kind {
+			if !sameID(fe.StartID, want.Start) || !sameID(fe.EndID, want.End) || fe.Kind != want.Kind {
 				return fmt.Errorf("graph %q edge record %d is (%s)-[%s]->(%s), source relationship %d is (%d)-[%s]->(%d)", ge.Name, i, fe.StartID, fe.Kind, fe.EndID, want.ID, want.Start, want.Kind, want.End)
 			}
 			if a, b := propsCanon(fe.Properties), propsCanon(want.Props); a != b {
